@@ -70,8 +70,9 @@ def op_c20_precision(order, pkind, pparams, skind, sparams, iters):
     solver = scls(problem, **sparams)
     st = solver.solve(max_iterations=int(iters))
     v = st.values
+    f32 = sorted(k for k, a in vars(problem).items() if hasattr(a, "dtype") and str(getattr(a, "dtype", "")) == "float32")
     return dict(dtype=str(v.dtype), values=np.asarray(v, dtype=np.float64).tolist(), iteration=int(st.info.iteration),
-                gamma_dtype=str(solver.gamma.dtype), x64=bool(jax.config.jax_enable_x64))
+                gamma_dtype=str(solver.gamma.dtype), x64=bool(jax.config.jax_enable_x64), problem_float32_arrays=f32)
 
 
 # ------------------------------------------------------------------------------------------------
